@@ -853,6 +853,7 @@ package protocol
 //@   requires u != nil && !mayAlias(u.path, u.pathOriginal) && arr(u.pathOriginal) >= 0
 //@   modifies u._all, mem, upOK
 //@   allocates
+//@   replay-go al := []byte("/a?#"); var rec func(x []byte, d int); rec = func(x []byte, d int) { var u URI; u.Parse([]byte("h"), x); q := bytes.IndexByte(x, '?'); f := bytes.IndexByte(x, '#'); if f >= 0 && q > f { q = -1 }; end := len(x); if f >= 0 { end = f }; wantHash := []byte{}; if f >= 0 { wantHash = x[f+1:] }; wantQ := []byte{}; pe := end; if q >= 0 { wantQ = x[q+1 : end]; pe = q }; if !bytes.Equal(u.PathOriginal(), x[:pe]) || !bytes.Equal(u.QueryString(), wantQ) || !bytes.Equal(u.Hash(), wantHash) { fmt.Printf("VCGO-VIOLATED URI.Parse(%q): original path %q, query %q, fragment %q\n", x, u.PathOriginal(), u.QueryString(), u.Hash()); panic("stop") }; if d == 0 { return }; for _, c := range al { rec(append(append([]byte{}, x...), c), d-1) } }; rec(nil, 5)
 //@   ghostset-at-entry upOK = uriApart(u, uri) && len(host) > 0 && forall(k, 0, len(uri), uri[k] != ':' && uri[k] >= ' ' && uri[k] != 0x7f)
 //@   ensures !mayAlias(u.path, u.pathOriginal) && arr(u.pathOriginal) >= 0
 //@   ensures @C17 upOK ==> len(u.pathOriginal) <= len(uri)
